@@ -90,10 +90,11 @@ type arithNode struct {
 }
 
 type arithGen struct {
-	r        *rand.Rand
-	maxDepth int
-	zeroBias int // percent of literals that are 0 (division by zero cases)
-	ws       []string
+	r          *rand.Rand
+	maxDepth   int
+	zeroBias   int // percent of literals that are 0 (division by zero cases)
+	longChains bool
+	ws         []string
 }
 
 func (g *arithGen) literal() *arithNode {
@@ -143,7 +144,11 @@ func (g *arithGen) term(d int) *arithNode {
 
 func (g *arithGen) expr(d int) *arithNode {
 	n := g.term(d)
-	for k := g.r.Intn(3); k > 0 && d > 0; k-- {
+	k0 := g.r.Intn(3)
+	if g.longChains && d == g.maxDepth && g.r.Intn(30) == 0 {
+		k0 = 90 + g.r.Intn(70) // a long flat chain at one precedence level: needs the full left-recursion depth
+	}
+	for k := k0; k > 0 && d > 0; k-- {
 		n = &arithNode{op: "+-"[g.r.Intn(2)], l: n, r: g.term(d - 1)}
 	}
 	return n
